@@ -67,6 +67,22 @@ class GhostSeq(Model):
         return SymSeq(self.elem, self.arr, self.len)
 
 
+class HavocDict(Model):
+    """a dict whose contents the contract does not speak about (filled inside a loop cut by an invariant)"""
+
+    model_name = "dict"
+    isa = ("dict",)
+
+    def setitem(self, it, k, v):
+        return None
+
+    def getitem(self, it, k):
+        raise Unsupported("reading a dict that was abstracted by a loop contract")
+
+    def havoc(self, it, name=None):
+        return self
+
+
 def sv_str(t):
     return SV("str", t)
 
@@ -102,7 +118,13 @@ def to_str(it, v):
         if v.k == "str":
             return v
         if v.k == "int":
-            return SV("str", z3.If(v.t < 0, z3.Concat(z3.StringVal("-"), z3.IntToStr(-v.t)), z3.IntToStr(v.t)))
+            r = fresh("str", "int2str")
+            it.ctx.assume(r.t == z3.If(v.t < 0, z3.Concat(z3.StringVal("-"), z3.IntToStr(-v.t)), z3.IntToStr(v.t)))
+            # decimal digits with an optional sign: in particular no space, ';', '=' or quote
+            digits = z3.Plus(z3.Range("0", "9"))
+            it.ctx.assume(z3.InRe(r.t, z3.Union(digits, z3.Concat(z3.Re("-"), digits))))
+            it.ctx.assume(z3.Length(r.t) > 0)
+            return r
         if v.k == "bool":
             return SV("str", z3.If(v.t, z3.StringVal("True"), z3.StringVal("False")))
         raise Unsupported(f"str() of symbolic {v.k}")
@@ -494,6 +516,8 @@ def m_replace(it, s, args):
     r = f(term(s), term(a), term(b))
     A = it.ctx.assume
     A(z3.Implies(z3.Not(z3.Contains(term(s), term(a))), r == term(s)))
+    if isinstance(a, str) and isinstance(b, str) and a != b and a != "":
+        A(z3.Implies(z3.Contains(term(s), term(a)), r != term(s)))
     if isinstance(b, str) and b == "" and isinstance(a, str) and len(a) == 1:
         A(z3.Not(z3.Contains(r, term(a))))
         A(z3.Length(r) <= z3.Length(term(s)))
